@@ -73,6 +73,9 @@ fn one_run(log: &mut EvLog, seed: u64, scanner: bool, thorough: bool) {
     for phase in 0..phases {
         // ---- change the population
         let nchg = if phase == 0 { rng.gen_range(0..12) } else { rng.gen_range(1..6) };
+        // every change is a real appearance or disappearance: an address changes at most once per phase (a responder
+        // that vanished and came back as something else without ever being absent is not an observable history)
+        let mut changed: Vec<usize> = vec![];
         for _ in 0..nchg {
             let a = match rng.gen_range(0..5) {
                 0 => 0,
@@ -80,6 +83,10 @@ fn one_run(log: &mut EvLog, seed: u64, scanner: bool, thorough: bool) {
                 2 => ts, // a responder at the scanner's own address can never be seen
                 _ => rng.gen_range(0..=125usize) as u8,
             } as usize;
+            if changed.contains(&a) {
+                continue;
+            }
+            changed.push(a);
             pop[a].present = !pop[a].present;
             pop[a].ident = if rng.gen_bool(0.85) { Some(rng.gen()) } else { None };
             pop[a].state = rng.gen_range(0..4);
